@@ -5,7 +5,7 @@ RULE = ("databases of 1-12 records around one wire packet: each record is exact 
         "generic/specific x class '!'/other, shuffled, in both sections, a third of the files re-opening a section later (the other direction's section is seeded with a specific "
         "exact match); observable (line number, match type, distance) of fingerprint_tcp through the public API on real bytes; "
         "non-trivial = the model returns a match; plus guess_distance on all 256 TTLs")
-GEN_TIE = True     # the anchored decision functions are also TRANSLATED from /repo's source on every run and proved equal to the model
+GEN_TIE = ['select']     # the anchored decision functions are also TRANSLATED from /repo's source on every run and proved equal to the model
 ASSUMPTIONS = ["packets Scapy cannot dissect (known finding KF-scapy-ao of C03) are skipped"]
 EXHAUSTIVE = {"no-match distance for every packet TTL 0..255": True}
 CLASSES = ["unix", "win", "!", "other"]
